@@ -175,6 +175,10 @@ def lean_stage(seed, tier):
         rp = os.path.join(LEAN_DIR, "EnumToolsModel.lean")
         if not os.path.exists(rp) or open(rp).read() != root:
             open(rp, "w").write(root)
+        # the executables first: they do not depend on the proof modules
+        for exe in ("etmodel", "ettrans"):
+            q = subprocess.run(["lake", "build", exe], cwd=LEAN_DIR, capture_output=True, text=True)
+            res[exe + "_rc"] = q.returncode
         p = subprocess.run(["lake", "build"], cwd=LEAN_DIR, capture_output=True, text=True)
         res["build_rc"] = p.returncode
         out = p.stdout + p.stderr
@@ -234,7 +238,10 @@ def behav_stage(seed, tier):
         if lean.get("build_rc", 1) != 0 and not os.path.exists(behav.ETMODEL):
             raise RuntimeError("model driver did not build")
         c = C.Corpus(seed, tier).build()
-        r = behav.run_stage(c, tier, log=log)
+        # the third column needs a driver built from the Templates.lean of *this* run
+        fresh_t = lean.get("ettrans_rc", 1) == 0 and "Templates.lean" not in lean.get("translator", {}).get("errors", {})
+        r = behav.run_stage(c, tier, log=log, translated=fresh_t)
+        r["translated_column"] = fresh_t
         # keep the cache small: transcripts only for grouped subjects
         grouped = {sid for g in c.groups.values() for sid in g}
         r["transcripts"] = {k: v for k, v in r["transcripts"].items() if k in grouped}
